@@ -29,6 +29,10 @@ class World:
         self.t.spawn(2, 2, ppid=1, comm=b"harness")
         if with_pid0:
             self.t.spawn(0, 0, ppid=0, comm=b"swapper")
+        from . import fixtures
+        self.t.rootfiles.update({"meminfo": fixtures.MEMINFO, "net/tcp": fixtures.NET_HDR_INET,
+                                 "net/tcp6": fixtures.NET_HDR_INET, "net/udp": fixtures.NET_HDR_INET,
+                                 "net/udp6": fixtures.NET_HDR_INET, "net/unix": b"Num RefCount Protocol Flags Type St Inode Path\n"})
         self.vk = vkernel.VK()
         self.vk.table = self.t
         self.vk.mount("/vproc", self.t)
